@@ -264,6 +264,13 @@ def serve (cfg : Cfg) (data : Bytes) : Served :=
       | es, _ => Reply.array es
     ⟨reply, handled⟩
 
+/-- `ParseRequests`: `none` = top-level error; otherwise one parsed member per batch member, in order -/
+def parseRequests (data : Bytes) : Option (List Msg) :=
+  match envelope data with
+  | .invalid => none
+  | .single r => some [parseMember (memberView r)]
+  | .batch rs => some (rs.map fun r => parseMember (memberView r))
+
 /-! ## the encoder (`jmessage.toJSON`, `jmessages.toJSON`) -/
 
 structure OutMsg where
@@ -295,8 +302,7 @@ def toJSON (j : OutMsg) : Bytes :=
 
 def joinComma : List Bytes → Bytes
   | [] => []
-  | [x] => x
-  | x :: r => x ++ 44 :: joinComma r
+  | x :: r => x ++ (r.map (44 :: ·)).flatten
 
 /-- `jmessages.toJSON`: a single non-batch message is sent bare, anything else as an array -/
 def toJSONs (js : List OutMsg) : Bytes :=
